@@ -265,6 +265,36 @@ def _impl_layer(ctx, vectors, cases):
         ctx.notes.append("implementation-shaped layer differs from the code on %d cases (model drift, not a verdict)" % neither)
 
 
+def _vacuity(ctx, cases):
+    """Coverage of the run measured on what the CONTRACT predicts for the executed cases (never on what the code did: a
+    defect must not be able to turn a violation into 'vacuous'). Called after the verdict-bearing phases."""
+    pred = [c for c in cases if c.get("exp")]
+    for m in METHODS if ctx.phase("enum") else ():
+        na = sum(1 for c in pred if c["v"][m] == "ok" and c["exp"] == "accept")
+        nr = sum(1 for c in pred if c["v"][m] == "bad")
+        if na < 10 or nr < 10:
+            return "method %s: %d must-accept / %d must-reject cases executed" % (m, na, nr)
+    nm = sum(1 for c in cases if c["mutations"])
+    last, flips, revoked, readmit, empty = {}, 0, 0, 0, 0
+    for c in pred:
+        k = (c["beh"], c["rep"], jdump(c["req"]))
+        was = last.get(k)
+        if was and was[0] == "accept" and c["exp"] == "reject":
+            flips += c["now"] > was[1]
+            if c["users"] != was[2]:
+                revoked += 1
+                empty += all(v == "gone" for v in c["users"].values())
+        if was and was[0] == "reject" and c["exp"] == "accept" and c["users"] != was[2]:
+            readmit += 1
+        last[k] = (c["exp"], c["now"], c["users"])
+    ctx.log("coverage (predicted): %d post-signing mutations, %d tokens accepted then expired, %d credentials accepted then revoked by a "
+            "snapshot (%d: empty table), %d admitted after a snapshot" % (nm, flips, revoked, empty, readmit))
+    if nm < 100 or (ctx.phase("clock") and flips < 5) or (ctx.phase("etcd") and (revoked < 5 or readmit < 3 or empty < 1)):
+        return "%d post-signing mutations, %d accepted-then-expired tokens, %d accepted-then-revoked credentials (%d by an empty table), " \
+               "%d admitted after a snapshot" % (nm, flips, revoked, empty, readmit)
+    return None
+
+
 # ------------------------------------------------------------------------------------------
 def run(ctx):
     ctx.cov["rule"] = ("vectors = all (configuration, credential-record) states of the contract enumerated by TLC (-dump), each concretised "
@@ -344,37 +374,9 @@ def run(ctx):
     ctx.log("harness ran %d cases (%d behaviours x %d instances)" % (len(cases), len(behs), reps))
     ctx.evals(len(cases))
     byline = {c["line"]: c for c in cases}
-    acc = sum(1 for c in cases if c["res"]["acc"])
-    if acc < len(cases) // 100 or acc > len(cases) - len(cases) // 100:
-        ctx.inconclusive("vacuous run: %d of %d cases accepted" % (acc, len(cases)))
+    ctx.log("observed: %d of %d cases accepted" % (sum(1 for c in cases if c["res"]["acc"]), len(cases)))
     for c in cases:
         ctx.nontrivial({"c": c["cfg"], "r": c["req"], "n": c["now"], "u": c["users"]})
-    # vacuity: every method must have been seen accepting and rejecting on the real code, mutants must have been executed,
-    # and the clock behaviours must contain a token that was accepted and later rejected
-    for m in METHODS if ctx.phase("enum") else ():
-        na = sum(1 for c in cases if c.get("v") and c["v"][m] == "ok" and c["res"]["acc"])
-        nr = sum(1 for c in cases if c.get("v") and c["v"][m] == "bad" and not c["res"]["acc"])
-        if na < 10 or nr < 10:
-            ctx.inconclusive("vacuous run: method %s accepted %d / rejected %d predicted cases" % (m, na, nr))
-    nm = sum(1 for c in cases if c["mutations"])
-    last, flips, revoked, readmit, empty = {}, 0, 0, 0, 0
-    for c in cases:
-        k = (c["beh"], c["rep"], jdump(c["req"]))
-        was = last.get(k)
-        if was and was[0] and not c["res"]["acc"]:
-            if c["now"] > was[1]:
-                flips += 1
-            if c["users"] != was[2]:
-                revoked += 1
-                empty += all(v == "gone" for v in c["users"].values())
-        if was and not was[0] and c["res"]["acc"] and c["users"] != was[2]:
-            readmit += 1
-        last[k] = (c["res"]["acc"], c["now"], c["users"])
-    if nm < 100 or (ctx.phase("clock") and flips < 5) or (ctx.phase("etcd") and (revoked < 5 or readmit < 3 or empty < 1)):
-        ctx.inconclusive("vacuous run: %d post-signing mutations executed, %d accepted-then-expired tokens, %d accepted-then-revoked "
-                         "credentials (%d by an empty table), %d admitted after a snapshot" % (nm, flips, revoked, empty, readmit))
-    ctx.log("coverage: %d accepted / %d cases, %d post-signing mutations, %d tokens accepted and later rejected after exp, %d credentials "
-            "accepted and rejected after a snapshot (%d: empty table), %d admitted after a snapshot" % (acc, len(cases), nm, flips, revoked, empty, readmit))
     picks = [next((c for c in cases if c["res"]["acc"] and c["req"]["sg"]["p"]), None), next((c for c in cases if c["mutations"]), None),
              next((c for c in cases if c["req"]["auth"] == "basic" and c["req"]["bs"]["pw"] == "rightColonX"), None)]
     for c in picks:
@@ -422,3 +424,7 @@ def run(ctx):
             if c is None:
                 ctx.inconclusive("trace validation flagged line %s which is not a case" % b["l"])
             report(c, b["exp"], b["v"], "trace validation")
+
+    vac = _vacuity(ctx, cases)
+    if vac and not ctx.violations:
+        ctx.inconclusive("vacuous run: " + vac)
